@@ -47,6 +47,19 @@ func GenRegexp(g G, names []string) string {
 		case 2:
 			if len(names) > 0 {
 				n := names[g.Pick(len(names), label+"cut")]
+				if g.Bool(label + "cutboundary") {
+					// a literal that is a whole namespace (what a prefix rule would
+					// match, a regexp must not): cut at a '/' boundary
+					var cuts []int
+					for i := 0; i < len(n); i++ {
+						if n[i] == '/' {
+							cuts = append(cuts, i, i+1)
+						}
+					}
+					if len(cuts) > 0 {
+						return quoteMeta(n[:cuts[g.Pick(len(cuts), label+"cutb")]])
+					}
+				}
 				return quoteMeta(n[:g.Int(0, len(n), label+"cutat")])
 			}
 			return "refs/he"
@@ -219,6 +232,18 @@ func GenGroups(g G, w *World, maxDepth int, exoticNames bool) []GroupSpec {
 				}
 			}
 			gs.Rules = append(gs.Rules, r)
+		}
+		if g.Chance(1, 4, "repeatrule") {
+			// the very same entry once more after the others (as a file
+			// included from two scopes gives): rules apply in git's order,
+			// so the repeat matters when an opposite rule lies in between
+			gs.Rules = append(gs.Rules, gs.Rules[0])
+			if len(gs.Rules) == 2 && len(names) > 0 {
+				// make sure something opposite and overlapping lies in between
+				nm := names[g.Pick(len(names), "opposedname")]
+				mid := GroupRule{Include: !gs.Rules[0].Include, Pattern: nm}
+				gs.Rules = []GroupRule{gs.Rules[0], mid, gs.Rules[0]}
+			}
 		}
 		specs = append(specs, gs)
 	}
